@@ -69,39 +69,77 @@ def consts():
             raise ExtractError(f"constant name {k} defined by two extraction hooks ({out[k][2]} and {group[0]})")
         out[k] = (v, prov, group[0])
 
-    defs = src("src/core/defs.h")
-    maxttl = define(defs, "NNI_MAX_MAX_TTL")
-    put("maxMaxTtl", maxttl, "core/defs.h NNI_MAX_MAX_TTL")
-    one(r"#define\s+NNI_MAX_HEADER_SIZE\s+\(\(NNI_MAX_MAX_TTL \+ 1\) \* sizeof\(uint32_t\)\)", defs, "NNI_MAX_HEADER_SIZE shape")
-    put("expireBatch", define(defs, "NNI_EXPIRE_BATCH"), "core/defs.h NNI_EXPIRE_BATCH")
+    errors = {}
 
-    msg = strip_comments(src("src/core/message.c"))
-    one(r"uint32_t\s+m_header_buf\[\(NNI_MAX_MAX_TTL \+ 1\)\];", msg, "nng_msg.m_header_buf dimension")
-    put("headerCap", (maxttl + 1) * 4, "core/message.c m_header_buf[(NNI_MAX_MAX_TTL+1)] of uint32_t")
-    body = func_body(src("src/core/message.c"), "nni_msg_alloc")
-    m = one(r"if \(\(sz < (\d+)\) \|\| \(\(sz & \(sz - 1\)\) != 0\)\) \{\s*rv = nni_chunk_grow\(&m->m_body, sz \+ (\d+), (\d+)\);\s*\} else \{\s*rv = nni_chunk_grow\(&m->m_body, sz, 0\);", body, "nni_msg_alloc headroom policy")
-    if m.group(2) != m.group(3):
-        raise ExtractError("nni_msg_alloc: tail slack and headroom differ; model assumes equal")
-    put("msgBigThreshold", int(m.group(1)), "core/message.c nni_msg_alloc")
-    put("msgHeadroom", int(m.group(2)), "core/message.c nni_msg_alloc")
-    ins = func_body(src("src/core/message.c"), "nni_chunk_insert")
-    one(r"\(needed \+ sizeof\(uint64_t\)\) <= ch->ch_cap", ins, "nni_chunk_insert pad test")
-    one(r"shift\s*=\s*\(shift \+ \(sizeof\(uint64_t\) - 1\)\) &\s*~\(sizeof\(uint64_t\) - 1\);", ins, "nni_chunk_insert rounding")
+    def fallback(g, e):
+        """an anchor of group g no longer matches: keep the values of the last good extraction (the generated
+        file on disk) so that the search for a failing input can still run; the breakage is reported through
+        ERRORS to every property whose proofs import that group"""
+        errors[g] = str(e)
+        for k in [k for k, t in out.items() if t[2] == g]:
+            del out[k]
+        for k, (v, prov) in read_generated(g).items():
+            out[k] = (v, prov, g)
 
-    # error numbers
-    nngh = src("include/nng/nng.h")
-    errs = {}
-    for name in ["EINTR", "ENOMEM", "EINVAL", "EBUSY", "ETIMEDOUT", "ECONNREFUSED", "ECLOSED", "EAGAIN", "ENOTSUP",
-                 "EADDRINUSE", "ESTATE", "ENOENT", "EPROTO", "EUNREACHABLE", "EADDRINVAL", "EPERM", "EMSGSIZE",
-                 "ECONNABORTED", "ECONNRESET", "ECANCELED", "ENOFILES", "ENOSPC", "EEXIST", "EREADONLY",
-                 "EWRITEONLY", "ECRYPTO", "EPEERAUTH", "EBADTYPE", "ECONNSHUT", "ESTOPPED"]:
-        m = one(r"\bNNG_" + name + r"\s*=\s*(\d+)", nngh, "NNG_" + name)
-        errs[name.lower()] = int(m.group(1))
-    put("errTable", sorted(errs.items()), "include/nng/nng.h enum nng_err")
+    def base():
+        defs = src("src/core/defs.h")
+        maxttl = define(defs, "NNI_MAX_MAX_TTL")
+        put("maxMaxTtl", maxttl, "core/defs.h NNI_MAX_MAX_TTL")
+        one(r"#define\s+NNI_MAX_HEADER_SIZE\s+\(\(NNI_MAX_MAX_TTL \+ 1\) \* sizeof\(uint32_t\)\)", defs, "NNI_MAX_HEADER_SIZE shape")
+        put("expireBatch", define(defs, "NNI_EXPIRE_BATCH"), "core/defs.h NNI_EXPIRE_BATCH")
+
+        msg = strip_comments(src("src/core/message.c"))
+        one(r"uint32_t\s+m_header_buf\[\(NNI_MAX_MAX_TTL \+ 1\)\];", msg, "nng_msg.m_header_buf dimension")
+        put("headerCap", (maxttl + 1) * 4, "core/message.c m_header_buf[(NNI_MAX_MAX_TTL+1)] of uint32_t")
+        body = func_body(src("src/core/message.c"), "nni_msg_alloc")
+        m = one(r"if \(\(sz < (\d+)\) \|\| \(\(sz & \(sz - 1\)\) != 0\)\) \{\s*rv = nni_chunk_grow\(&m->m_body, sz \+ (\d+), (\d+)\);\s*\} else \{\s*rv = nni_chunk_grow\(&m->m_body, sz, 0\);", body, "nni_msg_alloc headroom policy")
+        if m.group(2) != m.group(3):
+            raise ExtractError("nni_msg_alloc: tail slack and headroom differ; model assumes equal")
+        put("msgBigThreshold", int(m.group(1)), "core/message.c nni_msg_alloc")
+        put("msgHeadroom", int(m.group(2)), "core/message.c nni_msg_alloc")
+        ins = func_body(src("src/core/message.c"), "nni_chunk_insert")
+        one(r"\(needed \+ sizeof\(uint64_t\)\) <= ch->ch_cap", ins, "nni_chunk_insert pad test")
+        one(r"shift\s*=\s*\(shift \+ \(sizeof\(uint64_t\) - 1\)\) &\s*~\(sizeof\(uint64_t\) - 1\);", ins, "nni_chunk_insert rounding")
+
+        # error numbers
+        nngh = src("include/nng/nng.h")
+        errs = {}
+        for name in ["EINTR", "ENOMEM", "EINVAL", "EBUSY", "ETIMEDOUT", "ECONNREFUSED", "ECLOSED", "EAGAIN", "ENOTSUP",
+                     "EADDRINUSE", "ESTATE", "ENOENT", "EPROTO", "EUNREACHABLE", "EADDRINVAL", "EPERM", "EMSGSIZE",
+                     "ECONNABORTED", "ECONNRESET", "ECANCELED", "ENOFILES", "ENOSPC", "EEXIST", "EREADONLY",
+                     "EWRITEONLY", "ECRYPTO", "EPEERAUTH", "EBADTYPE", "ECONNSHUT", "ESTOPPED"]:
+            m = one(r"\bNNG_" + name + r"\s*=\s*(\d+)", nngh, "NNG_" + name)
+            errs[name.lower()] = int(m.group(1))
+        put("errTable", sorted(errs.items()), "include/nng/nng.h enum nng_err")
+    try:
+        base()
+    except (ExtractError, OSError) as e:
+        fallback("Base", e)
     for hook in EXTRA:
         group[0] = GROUP_OF.get(hook, "Misc")
-        hook(put)
+        try:
+            hook(put)
+        except (ExtractError, OSError) as e:
+            fallback(group[0], e)
+    ERRORS.clear()
+    ERRORS.update(errors)
     return out
+
+
+ERRORS = {}  # group -> message of the anchor that no longer matches (filled by consts())
+
+
+def read_generated(g):
+    """values of the last good extraction of group g (Generated/<g>.pyval, written next to <g>.lean):
+    name -> (value, provenance)"""
+    import ast
+    path = os.path.join(GEN, f"{g}.pyval")
+    if not os.path.exists(path):
+        return {}
+    try:
+        return {k: (v, prov) for k, (v, prov) in ast.literal_eval(open(path).read()).items()}
+    except Exception:
+        return {}
 
 
 EXTRA = []  # extraction hooks fn(put), one per vlib/extract_*.py (loaded below)
@@ -173,9 +211,15 @@ def generate():
             groups.append(g)
     changed = []
     for g in groups:
+        if g in ERRORS:
+            continue
         path = os.path.join(GEN, f"{g}.lean")
         new = render(c, g)
         old = open(path).read() if os.path.exists(path) else ""
+        pv = os.path.join(GEN, f"{g}.pyval")
+        pvnew = repr({k: (v, prov) for k, (v, prov, gg) in c.items() if gg == g})
+        if not os.path.exists(pv) or open(pv).read() != pvnew:
+            open(pv, "w").write(pvnew)
         if old != new:
             oldvals = dict(re.findall(r"^def (\w+) : [^\n]*? := ([^\n]*)$", old, re.M))
             for k, (v, _, gg) in c.items():
